@@ -55,6 +55,9 @@ def main():
                   "baseline_off_cmd": "sh tools/baseline_off.sh", "source_commits": src, "add_only": True},
         "engines": [
             {"name": "tlc-model-check", "path": "spec/", "serves_properties": sorted(CLAIMS), "kind_free_text": "TLC exhaustive / simulation runs of the TLA+ modules"},
+            {"name": "code-to-spec-trace-validation", "path": "spec/Wal_Trace.tla, spec/Writers_Trace.tla, tools/walrec.py, harness/drv/trace.go",
+             "serves_properties": [p for p in ["C01", "C02", "C03", "C04", "C05", "C07", "C34", "C35"] if p in CLAIMS],
+             "kind_free_text": "recorded executions of the real code (strace system-call logs with marker events; hook-point logs of free-running goroutines) checked as behaviours of the TLA+ trace specifications by TLC"},
             {"name": "spec-to-code-replay", "path": "harness/ + checks/", "serves_properties": sorted(CLAIMS), "kind_free_text": "TLC behaviours concretised and executed against the real code by the Go driver mktsverif"},
         ],
         "checks": checks,
